@@ -237,6 +237,9 @@ pub struct Objs {
     /// per arc object: index of the cell written by the payload's `Drop` (or none)
     #[serde(default)]
     pub arcs: Vec<Option<usize>>,
+    /// per arc object: index of an atomic that the payload's `Drop` loads and increments
+    #[serde(default, skip_serializing_if = "Vec::is_empty")]
+    pub arc_rmw: Vec<Option<usize>>,
     #[serde(default)]
     pub tracks: usize,
     #[serde(default)]
@@ -317,6 +320,9 @@ impl Program {
         cnt!(handles, "h");
         if !o.arcs.is_empty() {
             let _ = write!(s, "arcs={:?} ", o.arcs);
+        }
+        if !o.arc_rmw.is_empty() {
+            let _ = write!(s, "arc_rmw={:?} ", o.arc_rmw);
         }
         cnt!(tracks, "tr");
         cnt!(allocs, "al");
